@@ -3,6 +3,7 @@
 package props
 
 import (
+	"fmt"
 	"math/big"
 	"strings"
 	"testing"
@@ -471,4 +472,73 @@ func FuzzDiv(f *testing.F) {
 			h.FuzzFail(t, "C06", fail, c)
 		}
 	})
+}
+
+// TestC06Grid: a few operands of 2^12 .. 2^13 words (2^14, 2^15 in the thorough tier), an order of magnitude beyond
+// the generated lengths: deep Karatsuba and recursive-division recursions, and any code path gated by size. Words
+// come from a fixed splitmix stream mixed with the edge words; the oracle is the same as for generated cases.
+func TestC06Grid(t *testing.T) {
+	defer h.WriteStats("C06")
+	sizes := []int{1 << 12, 1<<13 + 1}
+	if h.Thorough() {
+		sizes = append(sizes, 1<<14, 1<<14+3, 1<<15)
+	}
+	st := uint64(0x9e3779b97f4a7c15)
+	next := func() uint64 {
+		st += 0x9e3779b97f4a7c15
+		z := st
+		z = (z ^ (z >> 30)) * 0xbf58476d1ce4e5b9
+		z = (z ^ (z >> 27)) * 0x94d049bb133111eb
+		return z ^ (z >> 31)
+	}
+	words := func(n int) string {
+		var b strings.Builder
+		for i := 0; i < n; i++ {
+			var w uint64
+			switch r := next() % 16; {
+			case r == 0:
+				w = 0
+			case r == 1:
+				w = h.Base - 1
+			case r == 2:
+				w = h.Base / 2
+			case r == 3:
+				w = 1
+			default:
+				w = next() % h.Base
+			}
+			if i == 0 && w < h.Base/10 {
+				w += h.Base / 10 * (1 + next()%9) // normalised top word
+			}
+			fmt.Fprintf(&b, "%019d", w)
+		}
+		return b.String()
+	}
+	k0, b0, s0 := decimal.VerifThresholds()
+	n := 0
+	for _, sz := range sizes {
+		x, y := words(sz), words(sz/2+7)
+		v := words(sz / 3)
+		vb, _ := new(big.Int).SetString(v, 10)
+		qb, _ := new(big.Int).SetString(words(sz-sz/3), 10)
+		u := new(big.Int).Mul(qb, vb)
+		u.Add(u, new(big.Int).Sub(vb, big.NewInt(1))) // remainder v-1
+		for _, c := range []C06Case{
+			{Kind: "mul", X: x, Y: y, Thr: [3]int{k0, b0, s0}},
+			{Kind: "sqr", X: y, Thr: [3]int{k0, b0, s0}},
+			{Kind: "div", X: bigToWordString(u), Y: v, Thr: [3]int{k0, b0, s0}},
+		} {
+			o := &h.Obs{}
+			o.Label("giant")
+			if f := propC06.SafeCheck(c, o); f != nil {
+				h.ReportGridFail(t, "C06", f, mustJSON(c))
+			}
+			h.RecordGrid("C06", o, struct {
+				Kind  string
+				Words int
+			}{c.Kind, sz})
+			n++
+		}
+	}
+	h.AddExtra("C06", "giant_cases_enumerated", n)
 }
